@@ -13,7 +13,8 @@ from __future__ import annotations
 import ast
 import re
 
-from ..core import (AnalysisError, Report, call_name, find_class, find_func, need, norm, short)
+from ..core import (AnalysisError, Report, call_name, enclosing_function, find_class, find_func, need,
+                    norm, short)
 from ..escape import Escapes
 from ..flow import Flow, MustFacts
 from ..index import CallGraph, Index, read_routes, verb_methods
@@ -196,6 +197,34 @@ def r12_4(rep: Report) -> None:
                          'live period ids are not suffixed with the loop count', fn)
 
 
+def r12_5(rep: Report) -> None:
+    """unit conversions between timescales multiply before they divide: the ratio of two
+    timescales is never truncated on its own (44100 // 240 = 183, 200 // 240 = 0)"""
+    from ..idioms import truncated_scale_ratios
+    n_sites = 0
+    for rel in rep.repo.py_files('dashlive'):
+        if '/validator/' in rel or rel.endswith('_test.py'):
+            continue
+        tree = rep.repo.tree(rel)
+        sites, bad = truncated_scale_ratios(tree)
+        for n in sites:
+            fn = enclosing_function(n)
+            construct = f'{rel}::{fn.name if fn else "<module>"}'
+            n_sites += 1
+            if n in bad:
+                rep.fail('R12.5', construct, f'ratio:{norm(n)}',
+                         f'`{norm(n)}` truncates the ratio of two timescales before it is applied: the '
+                         'conversion is wrong unless one timescale divides the other (audio 44100 / '
+                         'video 240, text 200 / video 240)', n, file=rel)
+            else:
+                rep.ok('R12.5', construct, f'conversion:{norm(n)[:70]}', 'multiply, then divide')
+        # augmented form  x *= a // b
+        for n in ast.walk(tree):
+            if isinstance(n, ast.AugAssign) and isinstance(n.op, ast.Mult) and n.value in bad:
+                pass
+    rep.extra['timescale_conversions'] = n_sites
+
+
 def analyse(rep: Report) -> None:
     rep.explanation = (
         'Access and error discipline of the multi-period routes: ownership test dominating every '
@@ -207,8 +236,10 @@ def analyse(rep: Report) -> None:
     rep.rule('R12.2', 'requests beyond the end of the media are refused with 404', floor=2)
     rep.rule('R12.3', 'calculate_media_segment_index never returns None as the number', floor=2)
     rep.rule('R12.4', 'period starts accumulate the durations', floor=4)
+    rep.rule('R12.5', 'timescale conversions multiply before dividing', floor=3)
     idx = Index(rep.repo)
     cg = CallGraph(idx)
     r12_1(rep, idx)
     r12_2_3(rep, idx, cg)
     r12_4(rep)
+    r12_5(rep)
